@@ -173,6 +173,40 @@ def _cases(tier, rng):
         r = ('bidir', r_raw(key(pz)), r_raw(key(ng)))
         for out_dim in (1, 2):
             yield (routed_scenario([(aid(out_dim, 2, False, False), [r])], compass_steps(lambda sub: raw(keys=[i for i in range(4) if sub[i]], pads=[pad(0)]))), 'bidirectional')
+    # (c) presets over fields that are already decorated bindings, *_each wrappers or two-dimensional inputs, against the
+    # hand-written sequence the documentation gives (north: swizzle, south: negate + swizzle, west / negative: negate all
+    # axes; whatever the field carried is kept)
+    def preset_frames(L):
+        steps = [sop(spawn(0, [0])), frame(raw(pads=[pad(0)]))]
+        for _ in range(L):
+            steps.append(frame(raw(keys=[k for k in range(8) if rng.random() < .45], mbuttons=[0] if rng.random() < .4 else [],
+                                   motion=(rng.choice([F(0), F(1), F(-1, 2)]), rng.choice([F(0), F(1, 2)])) if rng.random() < .5 else (F(0), F(0)),
+                                   wheel=(F(0), rng.choice([F(1), F(-1)])) if rng.random() < .5 else (F(0), F(0)), pads=[pad(0)]), rand_dt(rng)))
+        return steps
+    def field(ids, L, k, two_d=False):
+        r = rng.random()
+        if two_d and r < .5: return r_raw(rng.choice([wheel(), motion()]))
+        if two_d and r < .7: return r_single(key(k), [(ids.next(), '(m_swizzle YXZ)')], [])
+        if r < .2: return r_raw(key(k))
+        if r < .65:
+            return r_single(key(k), [(ids.next(), rng.choice(['(m_scale 3/1 3/1 3/1)', '(m_scale 1/2 2/1 1/1)', '(m_swizzle YXZ)']))] if rng.random() < .7 else [],
+                            [(ids.next(), rng.choice(['(c_just_press 1/2)', '(c_press 1/2)', c_script('KExplicit', [rng.choice(STATES) for _ in range(L + 1)])]))] if rng.random() < .6 else [])
+        if r < .85: return r_mods_each(r_slice(1, [key(k), key(k + 4)]), [(ids.next(), '(m_scale 2/1 2/1 2/1)')])
+        return r_conds_each(r_tuple(r_raw(key(k)), r_raw(key(k + 4))), [(ids.next(), '(c_press 1/2)')])
+    def handwritten(r):
+        return [r_single(i, m, c) for i, m, c in denote(r)]
+    for _ in range(60 if tier == 'thorough' else 16):
+        ids = Ids(); L = rng.randint(6, 10)
+        r = ('cardinal', field(ids, L, 0), field(ids, L, 1), field(ids, L, 2), field(ids, L, 3))
+        a = aid(rng.choice([2, 2, 3, 1]), 0, False, rng.random() < .3)
+        steps = preset_frames(L)
+        yield ('(rmulti [%s %s])' % (routed_scenario([(a, [r])], steps), routed_scenario([(a, handwritten(r))], steps)), 'cardinal-decorated-fields')
+    for _ in range(60 if tier == 'thorough' else 16):
+        ids = Ids(); L = rng.randint(6, 10)
+        r = ('bidir', field(ids, L, 0, rng.random() < .3), field(ids, L, 1, True))
+        a = aid(rng.choice([2, 2, 3, 1]), 0, False, rng.random() < .3)
+        steps = preset_frames(L)
+        yield ('(rmulti [%s %s])' % (routed_scenario([(a, [r])], steps), routed_scenario([(a, handwritten(r))], steps)), 'bidirectional-2d-and-decorated')
     # built-in key sets and sticks
     for name, downs in (('wasd', lambda sub: raw(keys=[10 + i for i in range(4) if sub[i]], pads=[pad(0)])), ('arrows', lambda sub: raw(keys=[14 + i for i in range(4) if sub[i]], pads=[pad(0)])),
                         ('dpad', lambda sub: raw(pads=[pad(0, [4 + i for i in range(4) if sub[i]])]))):
@@ -192,7 +226,7 @@ STAGES = [dict(name='routes', mode='app', coq='Check.C19m', noshrink=True, cases
                rule='(a) for each of 25 (quick) / 120 (thorough) generated logical binding sequences of 1-4 inputs (with own scripted modifiers/conditions and 0-2 modifiers attached to every element), the action is '
                     'built through every route of the menu that denotes it - repeated to() calls, flat tuple, nested tuples, mixed calls, with_modifiers_each over tuples, slices, &Vec, arrays, tuples of slices - all through '
                     'the crate\'s own InputBindSet impls, and run on the same random script; every trace must equal the model\'s run of the logical sequence. with_conditions_each (once, twice, combined with with_modifiers_each) over elements that already carry conditions; an action bound, others bound, then the first bound again with one more input while a later action listens on its consumed key. (b) Cardinal built from four arbitrary distinct keys in every '
-                    '(quick: every 4th) assignment, from gamepad buttons, from two-key Vecs per direction, on all output types; Bidirectional; both sticks; the built-in WASD / arrow / d-pad sets; every subset of directions pressed. '
+                    '(quick: every 4th) assignment, from gamepad buttons, from two-key Vecs per direction, on all output types; Bidirectional; both sticks; the built-in WASD / arrow / d-pad sets; every subset of directions pressed. (c) Cardinal and Bidirectional whose fields are decorated bindings (own modifiers / conditions), *_each wrappers over slices and tuples, mouse wheel / motion or swizzled keys (two-dimensional values on the negative side), each compared with the hand-written sequence of the documentation. '
                     'non-trivial = some action fires; distinct = distinct case text')]
 CLAUSES = {1: 'internal: a route of the generator does not denote the logical binding sequence of the case (Model/Bind.denote)', 2: 'a preset does not match the compass: expected (east - west, north - south) / (positive - negative)', 3: 'two construction routes that denote the same binding sequence (or binding an action once vs. twice) behave differently',
            8: 'panic', 9: 'malformed trace', 10: 'panic'}
